@@ -67,6 +67,9 @@ var c18Templates = []c18Tpl{
 	{src: "{{ g | abs }}|{{ f | ceil }}|{{ f | floor }}|{{ f | round }}|{{ w | round: n }}"},
 	{src: "{% if n == 3 %}A{% endif %}{% if n != k %}B{% endif %}{% if g < n %}C{% endif %}{% if k >= n %}D{% endif %}{% if f > n %}E{% else %}F{% endif %}{% if w == 2 %}G{% endif %}{% if n == w %}H{% else %}I{% endif %}"},
 	{src: "{% case n %}{% when 1 %}one{% when 3 %}three{% else %}other{% endcase %}{% case w %}{% when 2 %}two{% endcase %}"},
+	// longer cases whose earlier clauses list the same number in another kind: the first clause that is == wins
+	{src: "{% case n %}{% when 1.0 %}one{% when 3.0 %}three-point-oh{% when 2 %}two{% when 3 %}three{% else %}other{% endcase %}|{% case w %}{% when 4 %}a{% when 2.5 %}b{% when 2.0, 7 %}c{% when 2 %}d{% when 1 %}e{% endcase %}|" +
+		"{% case f %}{% when 1 %}a{% when 2 %}b{% when 3 %}c{% when '1.5' %}d{% when 1.5 %}e{% when 1.50 %}f{% endcase %}|{% case g %}{% when 0 %}a{% when 1 %}b{% when 2 %}c{% when 3 %}d{% when -2.0 %}e{% when -2 %}f{% endcase %}"},
 	{src: "{% if n %}T{% endif %}{% unless g %}U{% endunless %}{% if n and f %}V{% endif %}"},
 	{src: "{{ l | sort | join: ',' }}|{{ l2 | sort | join: ',' }}|{{ lf | sort | join: ',' }}|{{ l2 | uniq | join: ',' }}|{{ l | reverse | join: ',' }}"},
 	{src: "{% if l contains f %}A{% else %}B{% endif %}{% if l contains k %}C{% else %}D{% endif %}{% if l contains g %}E{% else %}F{% endif %}{% if lf contains n %}G{% else %}H{% endif %}{% if lf contains 2.5 %}I{% endif %}{% if l contains 2.0 %}J{% endif %}{% if l contains '2' %}K{% else %}L{% endif %}{% if ls contains n %}M{% else %}N{% endif %}"},
